@@ -80,6 +80,12 @@ async fn run(mut s: Sim, mut rng: Rng, _len: usize) -> Sim {
             for wrong in [K::Tok2z(b(&K::RdJournal)), K::Tok2z(b(&K::RdConfig)), src.clone()] {
                 let ix = s.rogue_buy(1, &src, &g.buyer, &g.users[8], 500, debt).with_key(2, &wrong); s.op(tx(vec![ix])).await;
             }
+            // C06: the withdrawal attempted from the top level: the withdraw authority is a derived address and cannot sign, so it is named
+            // unsigned, alone and right after a genuine top-level TransferChecked of one unit of 2Z into the swap destination
+            let swap_dest = K::Tok2z(b(&K::RdSwapAuth));
+            let w = s.rd_withdraw_sol(&rogue, &g.users[8], debt).with_signer(1, false); s.op(tx(vec![w])).await;
+            let t = s.tok_transfer_checked(&src, &K::Mint, &swap_dest, &g.buyer, 1, doublezero_revenue_distribution::DOUBLEZERO_MINT_DECIMALS);
+            let w = s.rd_withdraw_sol(&rogue, &g.users[8], debt).with_signer(1, false); s.op(tx(vec![t, w])).await;
             let ix = s.rogue_buy(1, &src, &g.buyer, &g.users[8], 500, debt); s.op(tx(vec![ix])).await;
             // a third party donates 300 2Z straight into the swap destination
             let ix = s.tok_transfer(&src, &K::Tok2z(b(&K::RdSwapAuth)), &g.buyer, 300); s.op(tx(vec![ix])).await;
